@@ -19,6 +19,14 @@ def sh(cmd, **kw):
 
 
 BUILD = os.path.join(VERIF, ".build", "celer")
+# other properties whose checks cover the same code: tried when the property's own check
+# does not report the change
+RELATED = {
+    "C14": ["C01", "C05"], "C10": ["C11", "C03", "C09"], "C09": ["C12", "C03", "C19"],
+    "C01": ["C05", "C04", "C16"], "C05": ["C01", "C14"], "C04": ["C01", "C16"], "C16": ["C02", "C04"],
+    "C15": ["C20", "C01"], "C11": ["C03"], "C19": ["C03"], "C03": ["C11", "C05"], "C02": ["C16"],
+    "C06": ["C02", "C13"], "C17": ["C06"], "C20": ["C15"], "C08": ["C05"], "C07": ["C17"],
+}
 
 
 def demo(n):
@@ -36,8 +44,9 @@ def demo(n):
     if os.path.exists(script):
         txt = open(script).read()
         envs = (f"R=/repo B={BUILD} SRC=/repo BUILD={BUILD} CELER_SRC=/repo CELER_BUILD={BUILD} "
-                f"REPO_ROOT=/repo BUILD_DIR={BUILD} CELER_SOURCE_ROOT=/repo")
-        if "ROOT=${ROOT:-" in txt and "$ROOT/seeded" in txt and os.path.exists(cc):
+                f"REPO_ROOT=/repo BUILD_DIR={BUILD} CELER_SOURCE_ROOT=/repo ROOT=/repo")
+        if ("ROOT=${ROOT:-" in txt and "$ROOT/seeded" in txt and "-lcorecel" not in txt
+                and os.path.exists(cc)):
             exe = os.path.join("/tmp", "seeded_demo_" + n)
             rc, out = sh(f"g++ -std=c++17 -O1 -I/repo/src -I{BUILD}/include {cc} -o {exe} && "
                          f"CELER_DISABLE_PARALLEL=1 {exe}; rc=$?; rm -f {exe}; exit $rc")
@@ -83,6 +92,19 @@ def main():
                   "input-found" if results[n]["with_failing_input"] else "no-input", f"{time.time()-t0:.0f}s")
             for w in why[:2]:
                 print("    ", w[:200])
+            results[n]["checked_by"] = pid
+            if not results[n]["detected"]:
+                for other in RELATED.get(pid, []):
+                    rc2, out2 = sh(f"python3 tools/check.py {other} --tier quick", cwd=VERIF,
+                                   env=dict(os.environ, VERIF_SEED=os.environ.get("VERIF_SEED", "0")))
+                    v2 = [l for l in out2.split("\n") if l.startswith("VIOLATION")]
+                    if rc2 == 1 and v2:
+                        why2 = [l for l in out2.split("\n") if l.startswith("# ")]
+                        results[n].update({"detected": True, "checked_by": other, "own_check_missed": True,
+                                           "with_failing_input": any("no-failing-input-found" not in v for v in v2),
+                                           "violation_lines": v2[:4], "reasons": [w[:300] for w in why2[:4]]})
+                        print("     own check missed; caught by", other, (why2 or [""])[0][:160])
+                        break
             drc, dout = demo(n)
             results[n]["demo_exit_with_change"] = drc
         finally:
